@@ -30,7 +30,18 @@ def run(rep, tier):
     rep.bounds = {"(len f, len g)": "(1,1),(1,3),(2,2),(3,2) quick; up to (4,4) thorough", "outside": "longer operands",
                   "value_clause": "f(x)+-g(x) up to rounding follows from this selection result composed with C14 (coefficient-wise + and -)"}
     run_e1(rep, specs(tier))
+    from props import ctrl_obl
+    from engine import E2
+    e = E2(rep, tier)
+    sizes = [(4, 4), (5, 3), (3, 5), (6, 2), (1, 6)] if tier == "quick" else [(4, 4), (5, 3), (3, 5), (6, 2), (1, 6), (5, 5), (8, 3), (3, 8), (6, 4)]
+    rep.bounds["(len f, len g)_mir"] = [list(x) for x in sizes]
+    ctrl_obl.c13_obligations(e, sizes, real=True)
+    ctrl_obl.c13_obligations(e, [(2, 2)], real=False)
+    e.finish()
 
 
 def replay(path):
+    if path.endswith(".json"):
+        from props.c02 import ctrl_replay
+        return ctrl_replay(path)
     return replay_cmd(path)
